@@ -254,7 +254,11 @@ def execute(trace):
             res.violate('cli', 'stdout-error', error=digest.canon_exc(r.stdout_error), **detail)
         elif not opts.get('triples'):
             blocks, seps, tail, problems = splitter.split_blocks(r.stdout)
-            if problems or len(blocks) != len(expected):
+            ngen = sum(len(trace['sources'][i]['graphs']) for i in order)
+            if len(blocks) != ngen:
+                res.violate('output', 'not-one-output-graph-per-input-graph', input_graphs=ngen,
+                            output_graphs=len(blocks), **detail)
+            elif problems or len(blocks) != len(expected):
                 res.violate('output', 'graph-count-or-shape', problems=problems, blocks=len(blocks),
                             expected_graphs=len(expected), **detail)
             else:
